@@ -221,7 +221,7 @@ pub fn gen(g: &mut Gen) {
     let max_k = if g.thorough { 12 } else { 7 };
     for k in 0..=max_k {
         for len in 0..=(k + 2) {
-            for _ in 0..(if g.thorough { 3 } else { 1 }) {
+            for _ in 0..(if g.thorough { 8 } else { 3 }) {
                 let src = fps(g, len);
                 let (p0, p1) = (rand_fp(g), rand_fp(g));
                 g.op(format!("@ draw {} {} {} {}", p0, p1, k, show_elems(&src)));
@@ -243,7 +243,7 @@ pub fn gen(g: &mut Gen) {
     for n in 1..=max_n {
         let need = 2 * ((n + 1) / 2);
         for k in 0..=3usize {
-            for rep in 0..(if g.thorough { 4 } else { 2 }) {
+            for rep in 0..(if g.thorough { 10 } else { 4 }) {
                 let mean = fps(g, n);
                 let cov = covariance(g, n, true);
                 let total = k * need;
